@@ -22,7 +22,7 @@ ID = "C03"
 LEVEL = "model_checking"
 TECHNIQUE = "stateless schedule exploration (choice-sequence DFS, iterative deviation bounding, prefix replay) of the real run_map/run_map_async through a controllable Executor and a virtual event loop"
 RULE = ("pipelines {two mapped functions + reduction, 2-D map -> partial reduction -> full reduction, tuple-output map -> zip consumer, generator -> outer "
-        "product, internal-axis-first -> reduction} x storage {file_array, dict, shared_memory_dict, per-output mixes} x executor assignment {one, per-output "
+        "product, internal-axis-first -> reduction; plus (single executor, B=1, sequential/thread real pools only) a map whose every element is None -> element-wise consumer} x storage {file_array, dict, shared_memory_dict, per-output mixes} x executor assignment {one, per-output "
         "dict, default-only dict, partial dict} x {map, map_async}; for each configuration every schedule with <= B deviations (deviation = not letting the "
         "caller continue after a submit / not running the oldest pending task when one must run). Plus the same configurations on real Thread/Process pools "
         "(one free-running schedule each, not claimed as schedule coverage)")
